@@ -54,3 +54,48 @@ CONTRACTS['hop_distance_routines_agree'] = Contract(
              ('reachability-flags-agree-and-mean-finite-distance', _N2 % "implies(v != w, And(result(3)[v, w] == result(4)[v, w], iff(result(3)[v, w], result(0)[v, w] != INF)))")])
 CONTRACTS['hop_distance_routines_agree'].source = SRC
 CONTRACTS['hop_distance_routines_agree'].callees = _CALLEES
+
+
+# ---- C12: the producer establishes what the consumer requires ------------------------------------------------------------------------
+# retrieve_shortest_path is proved against the precondition FloydConsistent(L, SPL, hops, Pmat) (contracts/distance.py).  Here that precondition
+# is an OBLIGATION at the call `retrieve_shortest_path(s, t, hops, Pmat)` with (SPL, hops, Pmat) the results of distance_wei_floyd(adjacency),
+# about which exactly the ensures clauses of its two proved contracts are assumed (contracts/floyd.py: the distances, and the hop-count /
+# next-node bookkeeping).  Ghost arguments of the consumer: L = adjacency, conn = "connection exists", reach = "reachable".
+from contracts import floyd as _f
+_FW, _FP = _f.CONTRACTS['distance_wei_floyd'], _f.CONTRACTS['distance_wei_floyd:paths']
+_RSP = _d.CONTRACTS['retrieve_shortest_path']
+
+
+def _setup_pf(eng, st):
+    n = z3.Int('n0c')
+    st.pc.append(n >= 1)
+    st.ghost['n0'] = n
+    st.env['adjacency'] = alloc(st, 2, z3.Const('G0', A2R), (n, n), REAL)
+    st.env['s'] = z3.Int('s_in')
+    st.env['t'] = z3.Int('t_in')
+
+
+_req = {c[0]: c for c in list(_FW.requires) + list(_FP.requires)}
+_PF_CALLEES = {
+    'distance_wei_floyd': callee_from_clauses('distance_wei_floyd', ['adjacency', 'transform'], list(_req.values()),
+                                              [e for e in list(_FW.ensures) + list(_FP.ensures) if e[0] != 'argument-untouched'],
+                                              [_M, _M, ('imat', 'n0', 'n0')], ghosts={'n0': 'len(adjacency)'}),
+    'retrieve_shortest_path': callee_from_clauses('retrieve_shortest_path', ['s', 't', 'hops', 'Pmat'], list(_RSP.requires), [], [],
+                                                  ghosts={'n0': 'len(hops)', 'L': 'adjacency', 'SPL': 'SPL',
+                                                          'conn': "lam2(lambda x, y: (1 if adjacency[x, y] != 0 else 0), len(hops))",
+                                                          'reach': "lam2(lambda x, y: (1 if Or(x == y, sdist(adjacency, x, y) >= 1) else 0), len(hops))"}),
+}
+CONTRACTS['path_from_floyd'] = Contract(
+    'corollary_src.distances', 'path_from_floyd', ['adjacency', 's', 't'], setup=_setup_pf,
+    requires=list(_req.values()) + [('s-t-are-nodes', 'And(inr(s, n0), inr(t, n0))')],
+    ghost_before={'SPL, hops, Pmat = distance_wei_floyd(*': "assume(lemma_walks(adjacency, n0))",
+                  'return retrieve_shortest_path(*': "; ".join("check('%s', %s)" % (nm, _N2 % body) for nm, body in [
+                      ('FC-hops-nonnegative', "hops[v, w] >= 0"),
+                      ('FC-zero-hops-iff-diagonal-or-unreachable', "iff(hops[v, w] == 0, Or(v == w, Not(Or(v == w, sdist(adjacency, v, w) >= 1))))"),
+                      ('FC-next-node-along-a-connection', "implies(hops[v, w] > 0, And(inr(Pmat[v, w], n0), adjacency[v, Pmat[v, w]] != 0))"),
+                      ('FC-hops-drop-by-one', "implies(hops[v, w] > 0, hops[Pmat[v, w], w] == hops[v, w] - 1)"),
+                      ('FC-length-drops-by-the-connection', "implies(hops[v, w] > 0, SPL[v, w] == adjacency[v, Pmat[v, w]] + SPL[Pmat[v, w], w])"),
+                      ('FC-target-still-reachable', "implies(hops[v, w] > 0, Or(Pmat[v, w] == w, sdist(adjacency, Pmat[v, w], w) >= 1))")])},
+    ensures=[])
+CONTRACTS['path_from_floyd'].source = SRC
+CONTRACTS['path_from_floyd'].callees = _PF_CALLEES
